@@ -28,7 +28,8 @@ def build(node, owned=None):
     if k == "Generic":
         A = own(P.arrays(node)["A"])
         if node.get("gen") == "flip":  # the product is a view of the operand
-            return ops.LinearOperator(A.dtype, A.shape, matmat=lambda X: X[::-1])
+            # (a view for an operand of the operator's own dtype; an operand of another dtype is promoted as a stored matrix would)
+            return ops.LinearOperator(A.dtype, A.shape, matmat=lambda X, dt=A.dtype: X[::-1] if X.dtype == dt else X[::-1].astype(np.result_type(X.dtype, dt)))
         return ops.LinearOperator(A.dtype, A.shape, matmat=lambda X, A=A: A @ X)
     if k == "Triangular":
         a = P.arrays(node)
